@@ -296,11 +296,18 @@ func reverse(ctx *core.Ctx) ([]Record, error) {
 	rounds := ctx.Pick(3, 40)
 	for round := 0; round < rounds; round++ {
 		for s := range schemes {
-			pw := foreignPasswords[rnd.Intn(len(foreignPasswords))]
+			pick2 := func() [2]string {
+				if schemes[s].p.R == 6 && rnd.Intn(4) != 0 {
+					a, b := r6Passwords[1+rnd.Intn(len(r6Passwords)-1)], r6Passwords[1+rnd.Intn(len(r6Passwords)-1)]
+					return [][2]string{{a, b}, {"", a}, {a, ""}, {"user", b}}[rnd.Intn(4)]
+				}
+				return foreignPasswords[rnd.Intn(len(foreignPasswords))]
+			}
+			pw := pick2()
 			cases = append(cases, foreignCase{Scheme: s, Layout: "ser", Seed: rnd.Int63(), User: pw[0], Owner: pw[1]})
 			nums := []uint32{255, 256, 65535, 65536, 0x010203, 1<<24 - 2, 1<<24 - 1, uint32(6 + rnd.Intn(1<<24-7))}
 			gens := []uint16{0, 1, 255, 256, 65534, uint16(rnd.Intn(65535))}
-			pw = foreignPasswords[rnd.Intn(len(foreignPasswords))]
+			pw = pick2()
 			cases = append(cases, foreignCase{Scheme: s, Layout: "minimal", Seed: rnd.Int63(), User: pw[0], Owner: pw[1],
 				Num: nums[(round+s)%len(nums)], Gen: gens[(round/2+s)%len(gens)]})
 		}
